@@ -308,7 +308,7 @@ impl Report {
             if self.violation.is_none() {
                 self.violation = Some((
                     f.reason,
-                    json!({"property": self.property, "engine": engine, "case": serde_json::to_value(&f.case).unwrap()}),
+                    json!({"property": self.property, "engine": engine, "case": serde_json::to_value(&f.case).unwrap_or_else(|e| json!({"unserializable_case": e.to_string()}))}),
                 ));
             }
         }
